@@ -23,7 +23,7 @@ pub fn def() -> PropDef {
     }
 }
 
-pub const CONFIGS: [&str; 8] = [
+pub const CONFIGS: [&str; 10] = [
     // 0 no rules
     r#"{ rules: [] }"#,
     // 1 default rules
@@ -40,6 +40,10 @@ pub const CONFIGS: [&str; 8] = [
     r#"{ rules: [], bundle: { require_mode: "path" } }"#,
     // 7 bundling + rules + an exclude
     r#"{ rules: ["remove_comments", "remove_empty_do"], bundle: { require_mode: "path", excludes: ["**/y*"] } }"#,
+    // 8 (index 9 below: 8 is the top-level filter variant) same as 6, only a bundle option differs
+    r#"{ rules: [], bundle: { require_mode: "path", modules_identifier: "__OTHER_MODULES" } }"#,
+    // 9 same as 7, only the bundle excludes differ
+    r#"{ rules: ["remove_comments", "remove_empty_do"], bundle: { require_mode: "path", excludes: [] } }"#,
 ];
 // a top-level filter makes darklua skip files; whether the stale output of a now-skipped file
 // must disappear is covered by variant 8 (see known findings)
@@ -156,6 +160,8 @@ pub fn alphabet(with_top_filter: bool) -> Vec<Op> {
         Op::SetConfig(5),
         Op::SetConfig(6),
         Op::SetConfig(7),
+        Op::SetConfig(9),
+        Op::SetConfig(10),
     ];
     if with_top_filter {
         v.push(Op::SetConfig(8));
@@ -167,7 +173,8 @@ fn config_text(i: usize) -> &'static str {
     if i == 8 {
         CONFIG_TOP_FILTER
     } else {
-        CONFIGS[i % CONFIGS.len()]
+        // 9 and 10 address the two last entries (8 is the top-level filter variant)
+        CONFIGS[(if i >= 9 { i - 1 } else { i }) % CONFIGS.len()]
     }
 }
 
